@@ -19,7 +19,7 @@ using namespace vh;
 //   pattern := ['~'] ( range-list | alts )          range-list := '<' clause (',' clause)* '>'
 //   alts    := seq (('|' | ',') seq)*               clause     := N | N '-' M | '-' M | N '-' | '-'
 //   seq     := atom*                                atom := '*' | '?' | class | '(' alts ')' | '\' c | plain
-//   class   := '[' ['^'] item+ ']'                  item := c | c '-' c      (c: none of ] [ ^ - \)
+//   class   := '[' ['^'] item+ ']'                  item := c | c '-' c      (c: none of ] [ ^ - \ ; , . + * ? are ordinary members)
 // Patterns outside this grammar (backtick regexes, dangling backslash, unbalanced brackets, { } ^ $ …) get no
 // verdict from the oracle; only must-not-crash and the single-valued check apply to them.
 // ------------------------------------------------------------------------------------------------
@@ -38,12 +38,11 @@ struct Node
 
 static bool isPlain(unsigned char c) {return (c != 0)&&(strchr("*?[](),|\\^${}", c) == NULL);}
 static bool isClassChar(unsigned char c) {return (c != 0)&&(strchr("][^-\\", c) == NULL);}
-static bool isMangledInClass(unsigned char c) {return (c != 0)&&(strchr(",.+*?", c) != NULL);}   // finding "class"
 
 struct Parser
 {
-   const std::string & s; size_t i; bool ok; bool mangledClass;
-   Parser(const std::string & str, size_t start) : s(str), i(start), ok(true), mangledClass(false) {}
+   const std::string & s; size_t i; bool ok;
+   Parser(const std::string & str, size_t start) : s(str), i(start), ok(true) {}
    bool more() const {return i < s.size();}
    unsigned char peek() const {return (unsigned char)s[i];}
 
@@ -92,12 +91,10 @@ struct Parser
          const unsigned char c = peek(); i++;
          if (c == ']') break;
          if (!isClassChar(c)) {ok = false; return k;}
-         if (isMangledInClass(c)) mangledClass = true;
          if ((i+1 < s.size())&&(s[i] == '-'))
          {
             const unsigned char h = (unsigned char)s[i+1];
             if ((!isClassChar(h))||(h < c)) {ok = false; return k;}
-            if (isMangledInClass(h)) mangledClass = true;
             k.items.push_back(std::make_pair(c, h)); k.isRange.push_back(true); i += 2;
          }
          else {k.items.push_back(std::make_pair(c, c)); k.isRange.push_back(false);}
@@ -142,22 +139,24 @@ static bool match(const Node & n, const std::string & s, size_t at, const Cont &
 
 struct Range {bool hasLo, hasHi, single; uint64_t lo, hi;};
 
-static bool isCanonDecimal(const std::string & s)
+// "an ASCII representation of an integer": a non-empty string of decimal digits (any length; leading zeros allowed)
+static bool isDecimal(const std::string & s)
 {
    if (s.empty()) return false;
    for (size_t i=0; i<s.size(); i++) if ((s[i] < '0')||(s[i] > '9')) return false;
-   return (s.size() == 1)||(s[0] != '0');
+   return true;
 }
-// value of a canonical decimal, saturating at 2^63
+static bool isCanonDecimal(const std::string & s) {return (isDecimal(s))&&((s.size() == 1)||(s[0] != '0'));}
+// value of a decimal, saturating at 2^63 (larger than every number a pattern can name)
 static uint64_t decValue(const std::string & s) {uint64_t v = 0; for (size_t i=0; i<s.size(); i++) {if (v > (1ULL<<59)) return 1ULL<<63; v = v*10 + (uint64_t)(s[i]-'0');} return v;}
 
 struct Pattern
 {
    bool inGrammar;      // the oracle can tell what this pattern means
-   bool neg, isRanges, mangledClass;
+   bool neg, isRanges;
    Node tree;
    std::vector<Range> ranges;
-   Pattern() : inGrammar(false), neg(false), isRanges(false), mangledClass(false) {}
+   Pattern() : inGrammar(false), neg(false), isRanges(false) {}
 
    // documented meaning
    bool denotes(const std::string & subj) const
@@ -166,7 +165,7 @@ struct Pattern
       if (isRanges)
       {
          r = false;
-         if (isCanonDecimal(subj))
+         if (isDecimal(subj))
          {
             const uint64_t v = decValue(subj);
             for (size_t i=0; i<ranges.size(); i++)
@@ -186,7 +185,7 @@ static bool parseNumber(const std::string & s, uint64_t & v)
 {
    if ((!isCanonDecimal(s))||(s.size() > 10)) return false;
    v = decValue(s);
-   return v < 4294967296ULL;
+   return v < 4294967295ULL;   // 2^32-1 is MUSCLE_NO_LIMIT, "no upper bound"
 }
 
 static Pattern parse(const std::string & text)
@@ -226,7 +225,6 @@ static Pattern parse(const std::string & text)
    Parser ps(text, at);
    p.tree = ps.alts();
    if ((!ps.ok)||(ps.more())) return p;
-   p.mangledClass = ps.mangledClass;
    p.inGrammar = true;
    return p;
 }
@@ -261,7 +259,7 @@ struct WcEngine : public Engine
       unsigned char pickLit() {const std::string a = alphabet(); return (unsigned char)(r.chance(1,2) ? kLetters[r.below(4)] : a[r.below((uint32_t)a.size())]);}
       unsigned char pickCls()
       {
-         static const char * safe = "ab01()|${}~`<>=:!";
+         static const char * safe = "ab01()|${}~`<>=:!,.+*?,.+*?";
          return (unsigned char)(r.chance(2,3) ? kLetters[r.below(4)] : safe[r.below((uint32_t)strlen(safe))]);
       }
       doc::Node alts(int depth)
@@ -417,12 +415,11 @@ struct WcEngine : public Engine
       for (size_t i=0; i<subj.size(); i++) if (!hasNul(subj[i])) fprintf(out, "match %s\n", hexOf(subj[i]).c_str());
    }
 
-   // documented range list + clean subjects (canonical decimals around every boundary, non-numeric strings).
-   // Subjects that start with a digit but are not canonical decimals below 2^32 are finding F9's trigger inputs:
-   // they live in corpus/C15/wc-known-F9.ops, not in the random stream.
+   // range list + subjects: decimals around every boundary, non-numeric strings, and strings that merely START with a
+   // number or are too large for 32 bits (former finding F9; regression case corpus/C15/wc-regress-F9.ops)
    void genRanges(Rng & r, const Tier & tier, FILE * out, bool malformed)
    {
-      static const uint64_t nums[] = {0,1,2,5,7,9,10,11,19,21,25,99,100,101,255,65535,65536,4294967294ULL,4294967295ULL};
+      static const uint64_t nums[] = {0,1,2,5,7,9,10,11,19,21,25,99,100,101,255,65535,65536,4294967293ULL,4294967294ULL};
       std::string p = r.chance(1,5) ? "~<" : "<";
       std::vector<uint64_t> bounds;
       if (!malformed)
@@ -481,11 +478,10 @@ struct WcEngine : public Engine
       static const char * other[] = {"", "x", "a5", "-5", " 5", "+5", "<5>", "~", "five", ">", "-"};
       for (size_t i=0; i<sizeof(other)/sizeof(other[0]); i++) subj.push_back(other[i]);
       for (uint32_t i=0; i<(tier.thorough?12u:6u); i++) subj.push_back(u64s(r.chance(1,2) ? r.below(120) : (uint64_t)(r.next() % 4294967296ULL)));
-      if (!documented)
       {
-         // no documented meaning, so no oracle verdict: the numeric-prefix subjects may take part in the model comparison
-         static const char * pre[] = {"6x", "06", "007", "5-7", "7>", "4294967301", "18446744073709551621", "99999999999999999999999", "5 ", "1e3", "0x10"};
+         static const char * pre[] = {"6x", "06", "007", "00", "5-7", "7>", "4294967295", "4294967296", "4294967301", "4294967302", "18446744073709551621", "99999999999999999999999", "5 ", "1e3", "0x10"};
          for (size_t i=0; i<sizeof(pre)/sizeof(pre[0]); i++) subj.push_back(pre[i]);
+         for (size_t i=0; (i<bounds.size())&&(i<4); i++) {subj.push_back("0" + u64s(bounds[i])); subj.push_back(u64s(bounds[i]) + "x"); subj.push_back(u64s(bounds[i] + 4294967296ULL));}
       }
       for (size_t i=0; i<subj.size(); i++) fprintf(out, "match %s\n", hexOf(subj[i]).c_str());
    }
@@ -522,7 +518,6 @@ struct WcEngine : public Engine
             if (r.chance(1,20)) p.push_back((char)r.range(1,255));
          }
          const doc::Pattern d = doc::parse(p);
-         if ((d.inGrammar)&&(d.mangledClass)) continue;     // finding "class": trigger inputs live in corpus/C15/wc-known-class.ops
          if ((d.inGrammar)&&(d.isRanges)) continue;         // range lists have their own stream with clean subjects
          break;
       }
@@ -623,7 +618,7 @@ struct WcEngine : public Engine
       if (mstr(RemoveEscapeChars(es)) != s) {oracleFail("escape: RemoveEscapeChars(EscapeRegexTokens(s)) != s for s=" + hexOf(s)); return;}
       StringMatcher m;
       if (m.SetPattern(es, true).IsError()) {oracleFail("escape: the escaped string is not a valid pattern, s=" + hexOf(s)); return;}
-      // (a leading backtick used to be left unescaped — finding "tick", fixed in /repo; corpus/C15/wc-known-tick.ops is its regression case)
+      // (a leading backtick used to be left unescaped — finding "tick", fixed in /repo; corpus/C15/wc-regress-tick.ops is its regression case)
       const char * tag = "escape: ";
       if (!m.Match(s.c_str())) {oracleFail(std::string(tag) + "the escaped pattern does not match the string itself, s=" + hexOf(s)); return;}
       if (!m.IsPatternUnique()) {oracleFail("escape: the escaped pattern is not reported unique, s=" + hexOf(s)); return;}
@@ -654,7 +649,7 @@ struct WcEngine : public Engine
          cur = doc::parse(s);
          if ((op == "gpat")&&(!cur.inGrammar)) oracleFail("generator: a pattern announced as documented is not accepted by the oracle's parser: " + hexOf(s));
          if ((cur.inGrammar)&&(r.IsError())) oracleFail("SetPattern rejects a documented pattern: " + hexOf(s));
-         if ((cur.inGrammar)&&(!cur.mangledClass)&&(sm->IsPatternUnique()))
+         if ((cur.inGrammar)&&(sm->IsPatternUnique()))
          {
             const String u = RemoveEscapeChars(String(s.data(), (uint32)s.size()));
             if (!sm->Match(u())) oracleFail("unique: IsPatternUnique() but the pattern does not match its own unescaped text, pattern=" + hexOf(s));
@@ -675,15 +670,7 @@ struct WcEngine : public Engine
             const bool want = cur.denotes(s);
             if (real != want)
             {
-               std::string why = "match: ";
-               if (cur.isRanges)
-               {
-                  const bool digitFirst = (!s.empty())&&(s[0] >= '0')&&(s[0] <= '9');
-                  if ((digitFirst)&&(!doc::isCanonDecimal(s))) why = "range-nonint: ";                                            // F9: "6x", "06"
-                  else if ((doc::isCanonDecimal(s))&&((s.size() > 10)||(doc::decValue(s) >= 4294967296ULL))) why = "range-wrap: ";   // F9: value reduced modulo 2^32
-                  else why = "range: ";
-               }
-               else if (cur.mangledClass) why = "class-mangled: ";
+               const std::string why = cur.isRanges ? "range: " : "match: ";
                oracleFail(why + "Match() differs from the documented meaning: pattern=" + hexOf(pat) + " subject=" + hexOf(s) + " Match=" + b01(real) + " documented=" + b01(want));
             }
          }
@@ -692,7 +679,7 @@ struct WcEngine : public Engine
             matched.insert(s);
             if ((matched.size() >= 2)&&(!CanWildcardStringMatchMultipleValues(String(pat.data(), (uint32)pat.size()))))
                oracleFail("multi: two different strings match but CanWildcardStringMatchMultipleValues() says no: pattern=" + hexOf(pat) + " subjects=" + hexOf(*matched.begin()) + "," + hexOf(*matched.rbegin()));
-            if ((sm->IsPatternUnique())&&(cur.inGrammar)&&(!cur.mangledClass)&&(s != mstr(RemoveEscapeChars(String(pat.data(), (uint32)pat.size())))))
+            if ((sm->IsPatternUnique())&&(cur.inGrammar)&&(s != mstr(RemoveEscapeChars(String(pat.data(), (uint32)pat.size())))))
                oracleFail("unique: IsPatternUnique() but a string other than the unescaped pattern matches: pattern=" + hexOf(pat) + " subject=" + hexOf(s));
          }
          return b01(real);
